@@ -58,6 +58,9 @@ def generate(seed: int, tier: str) -> Dict[str, Any]:
     kind = r.weighted([(k, 3 if k.startswith("threads") else 2) for k in KINDS])
     p: Dict[str, Any] = {"kind": kind, "max_entries": r.choice([0, 1, 2, 3]), "max_bytes": r.choice([0, 2, 5, 8]),
                          "ttl": r.choice([0, 1, 2, 3]), "flags": [r.chance(0.5), r.chance(0.5)], "sched_seed": int(r.u64() % (1 << 30))}
+    p["ttl_alias"] = r.choice(["ttl_s", "ttl_sec", "ttl"])
+    p["cap_alias"] = r.choice(["max_entries", "capacity"])
+    long_jumps = r.chance(0.3)
     val = itertools.count(1)
     if kind.startswith("threads"):
         p["max_entries"] = r.choice([1, 2, 3])
@@ -100,7 +103,7 @@ def generate(seed: int, tier: str) -> Dict[str, Any]:
         elif x < 0.8:
             ops.append({"op": "contains", "k": r.choice(KEYS)})
         elif x < 0.9:
-            ops.append({"op": "clock", "ms": r.choice([500, 1000, 1001, 2000, 3500, -1500])})
+            ops.append({"op": "clock", "ms": r.choice([500, 1000, 1001, 2000, 3500, -1500] + ([599_000, 601_000, 86_400_000, 10**12] if long_jumps else []))})
         elif x < 0.95:
             ops.append({"op": "discard" if kind == "ring" else "items", "k": r.choice(KEYS)})
         else:
@@ -192,6 +195,12 @@ class MTtl:
         self.d.clear()
         return n
 
+    def items(self):
+        now = self.clock()
+        for k in [k for k, (ts, _v) in self.d.items() if self.ttl and (now - ts) > self.ttl]:
+            del self.d[k]
+        return [(k, v) for k, (_ts, v) in self.d.items()]
+
 
 class MDetLRU:
     def __init__(self, cap, ug, up):
@@ -261,7 +270,7 @@ def _seq(p: Dict[str, Any], stats: Dict[str, int]) -> List[Dict[str, Any]]:
         real = _NamespaceCache(me, ttl, now)
         model = MTtl(me, ttl, now)
     elif kind == "lrucache":
-        real = LRUCache(max_entries=me, ttl_s=ttl, time_fn=now)
+        real = LRUCache(**{p.get("cap_alias", "max_entries"): me, p.get("ttl_alias", "ttl_s"): ttl, "time_fn": now})
         model = MTtl(me, ttl, now)
     elif kind == "manager":
         real = CacheManager(max_entries=me, ttl_sec=ttl, time_fn=now)
@@ -342,6 +351,10 @@ def _seq(p: Dict[str, Any], stats: Dict[str, int]) -> List[Dict[str, Any]]:
             elif o == "contains" and kind == "lrucache":
                 if bool(op["k"] in real) != model.contains(op["k"]):
                     bad("contains", ctx)
+            elif o == "items" and kind == "lrucache":
+                a, b = list(real.items()), model.items()
+                if a != b:
+                    bad("items", "items() %s, model %s; %s" % (a, b, ctx))
             elif o == "invalidate":
                 a = real.invalidate() if kind != "manager" else real.invalidate_namespace("ns")
                 b = model.invalidate()
